@@ -162,7 +162,7 @@ EXECUTE_SRC = '''def _execute(operator: str, *operands):
 
 WRAP_SRC = '''def wrap_in_experimental_value(operand):
     if isinstance(operand, Real):
-        return dt.Constant(operand)
+        return dt.Constant(int(operand) if isinstance(operand, Integral) else float(operand))
     if isinstance(operand, dt.ExperimentalValue):
         return operand
     if isinstance(operand, tuple) and len(operand) == 2:
